@@ -51,6 +51,7 @@ PRED_SIG = {
     "Step_C37_ParamsPartialOverride": "template-params/request-params-erase-template-params",
     "Step_C37_RunExactAmounts": "template-run/amounts-above-2p53-rounded",
     "Step_C37_VarExactAmounts": "template-vars/numbers-above-2p53-rounded",
+    "Step_C20_AcctBalanceNoAsset": "balance-filter-without-asset/multi-asset-500",
 }
 
 # predicates whose applicability guards vacuity, per property
@@ -118,14 +119,19 @@ def spec_level(tier):
     reads_src = open(os.path.join(vlib.SPEC, "Reads.tla")).read()
     mutated = reads_src.replace("ELSE {k \\in keys : IF order = \"asc\" THEN k >= c.pid ELSE k <= c.pid}",
                                 "ELSE {k \\in keys : IF order = \"asc\" THEN k > c.pid ELSE k < c.pid}")
-    if mutated == reads_src:
+    old_rule = reads_src.replace("CountInAsAddressFilter == FALSE", "CountInAsAddressFilter == TRUE")
+    if mutated == reads_src or old_rule == reads_src:
         raise vlib.Inconclusive("specification-level negative control: mutation site not found in Reads.tla")
 
     def one(label):
         module, cfgname, _, _ = SPEC_RUNS[label]
         if label == "fold":
             cfgname = cfg["fold_cfg"]
-        extra = [("Reads.tla", None, mutated)] if label == "pages_mutant" else []
+        extra = []
+        if label == "pages_mutant":
+            extra = [("Reads.tla", None, mutated)]
+        elif label == "lateral_in_neg":
+            extra = [("Reads.tla", None, old_rule)]
         return label, vlib.tlc(module, cfgname, workers=2, timeout=cfg["tlc_timeout"], extra_files=extra, heap="2g")
 
     out = {}
@@ -343,8 +349,8 @@ def evaluate(c, prop, d):
             raise vlib.Inconclusive("vacuous run: predicate %s never applied to a read" % p)
     if prop == "C20":
         neg = res["spec"].get("lateral_in_neg", {})
-        c.note("design-level finding (TLC, MC_ReadsLateral with $in leaves, depth 2): the push-down rule says 'safe' for a filter "
-               "whose lateral lookup drops rows the filter selects: %s" % neg.get("counterexample", "")[:700])
+        c.note("specification-level negative control (TLC, MC_ReadsLateral with the rule as it was before repository commit 55870c0, "
+               "i.e. an $in leaf counted as an address filter): PushSafe refuted by %s" % neg.get("counterexample", "")[:500])
     if res["projection"]:
         c.note("projection failures (off-grid timestamp / amount not a multiple of the scale) in %d cases: %s"
                % (len(res["projection"]), res["projection"][:2]))
